@@ -124,11 +124,16 @@ class Cnl2asp:
 
     def compile(self, auto_link_entities: bool = True) -> str:
         SignatureManager.signatures = []
+        previous_auto_link = Utility.AUTO_ENTITY_LINK
         Utility.AUTO_ENTITY_LINK = auto_link_entities
-        specification: SpecificationComponent = self.parse_input()
-        asp_converter: ASPConverter = ASPConverter()
-        program: ASPProgram = specification.convert(asp_converter)
-        return str(program)
+        try:
+            specification: SpecificationComponent = self.parse_input()
+            asp_converter: ASPConverter = ASPConverter()
+            program: ASPProgram = specification.convert(asp_converter)
+            return str(program)
+        finally:
+            # the option holds for this call only: check_syntax / cnl_to_json / later compilations must not inherit it
+            Utility.AUTO_ENTITY_LINK = previous_auto_link
 
     def optimize(self, asp_encoding: str, input_symbols: list[Symbol] = None, output_symbols: list[Symbol] = None,
                  print_with_functions=False):
